@@ -20,7 +20,7 @@ PID = "C18"
 M16 = 1 << 16
 M32 = 1 << 32
 CLOCKRATE = 8000
-EPOCH = 1_700_000_000.0
+EPOCH = (3167 * 2 ** 32 - 400) / 8000      # ~1.70e9 s; in RTP clock units 50 ms below a multiple of 2^32: every history crosses it
 SSRC_A, SSRC_B = 0x1111, 0x2222
 
 # symbol = (seq step relative to the highest sequence seen, timestamp step, clock step in seconds, ssrc)
@@ -40,6 +40,8 @@ SYMBOLS = [
     ("report", None),
     ("other-ssrc", (1, 160, 0.020, "B")),
     ("ts-back", (1, -320, 0.020, "A")),      # in sequence order, timestamp steps backwards (frames sent in decode order)
+    # the wall clock is set while the stream runs (a device that booted in 1970 and then hears from NTP): + 10^9 seconds
+    ("clock-set", (1, 160, 1.0e9, "A")),
 ]
 NAMES = [n for n, _ in SYMBOLS]
 STAT_NAMES = [n for n in NAMES if n != "other-ssrc"]
@@ -73,7 +75,11 @@ class RefStream:
             dts = (ts - self.last_ts) % M32
             if dts >= 1 << 31:
                 dts -= M32                            # A.8: 32-bit modular difference
-            d = abs((arrival - self.last_arrival) - dts)
+            # A.8 computes transit times and their difference in 32-bit arithmetic
+            d = ((arrival - self.last_arrival) - dts) % M32
+            if d >= 1 << 31:
+                d -= M32
+            d = abs(d)
             self.jitter_q4 += d - ((self.jitter_q4 + 8) >> 4)
         self.last_arrival = arrival
         self.last_ts = ts
@@ -363,7 +369,7 @@ def run(tier, seed):
     total.merge(st)
     return result(
         PID, total,
-        rule="complete tree of histories over 15 symbols (in-order packet with the timestamp stepping backwards, new frame, same timestamp, 1/4 lost, duplicate, late by 1/3, +300 and "
+        rule="complete tree of histories over 16 symbols (the wall clock being set forward by 10^9 s, in-order packet with the timestamp stepping backwards, new frame, same timestamp, 1/4 lost, duplicate, late by 1/3, +300 and "
              "+32767 sequence jumps, arrival clock jumping back 1 s, timestamp jump, burst, report timer fires, packet of a second "
              "SSRC) to depth %s from start (sequence, timestamp) in {65534,0} x {2^32-500,0}; each history replayed on a fresh real "
              "RTCRtpReceiver whose _run_rtcp task emits the report through a transport stand-in; every emitted report block "
